@@ -14,7 +14,7 @@ MIN_DEPS = ["google/api/annotations.proto", "google/api/client.proto", "google/l
 PKGS = ["acme.lib.v1", "foo.bar.baz.v2", "acme.lib.v1beta1", "acme.lib.v1", "big.co.lib.v1"]
 SVC_STEMS = ["lib", "service", "library_service"]
 IMP_STEMS = ["shared", "resources", "common"]
-UNIMP_STEMS = ["extra", "operation", "metadata_types", "results"]
+UNIMP_STEMS = ["extra", "operation", "metadata_types", "results", "operation_async", "operation"]
 SUBPKG_DEEPER = True      # two-level sub-packages (`<pkg>.sub.deeper`) in the sub-package layout
 MSG_POOL = ["Book", "MoveMeta", "OperationMetadata", "Empty", "Operation", "Status", "Result", "Shelf", "Progress",
             "Crate", "Report", "Struct", "Metadata", "Response"]
@@ -55,9 +55,89 @@ def fpath(spec, role):
 def gen_spec(r: apigen.Rng, idx: int, nlro=None, layout=None):
     if layout is None:
         layout = "subpkg" if r.maybe(0.3) else "flat"
-    if layout == "subpkg":
-        return gen_spec_subpkg(r, idx, nlro)
-    return gen_spec_flat(r, idx, nlro)
+    spec = gen_spec_subpkg(r, idx, nlro) if layout == "subpkg" else gen_spec_flat(r, idx, nlro)
+    spec["sharing"] = share_types(r, [m for m in spec["methods"] if m["kind"] == "lro"])
+    if layout == "flat":
+        lros = [m for m in spec["methods"] if m["kind"] == "lro"]
+        if r.maybe(0.2):       # an rpc whose snake-case name is the name of api-core's module (Service.names -> module alias)
+            r.pick(lros)["name"] = r.pick(["Operation", "Operation", "OperationAsync"])
+        if r.maybe(0.45):      # a second service, in the file nobody imports (LRO methods in several services and files)
+            spec["svc2"] = gen_second_service(r, spec)
+    spec["service_yaml"] = gen_yaml(r, spec["pkg"]) if r.maybe(0.45) else None
+    return spec
+
+
+def share_types(r, lros):
+    """make LRO methods share response and/or metadata types in every combination (state shared between methods)"""
+    if len(lros) < 2 or r.maybe(0.35):
+        return "independent"
+    a, b = r.sample(lros, 2)
+    pat = r.pick(["same-response", "same-response", "same-metadata", "same-both", "crossed", "response-is-others-metadata", "chain"])
+    if pat == "same-response":
+        b["response"] = dict(a["response"])
+    elif pat == "same-metadata":
+        b["metadata"] = dict(a["metadata"])
+    elif pat == "same-both":
+        b["response"], b["metadata"] = dict(a["response"]), dict(a["metadata"])
+    elif pat == "crossed":
+        b["response"], b["metadata"] = dict(a["metadata"]), dict(a["response"])
+    elif pat == "response-is-others-metadata":
+        b["response"] = dict(a["metadata"])
+    else:                       # every later method repeats the first one's response type
+        for m in lros[1:]:
+            m["response"] = dict(lros[0]["response"])
+    return pat
+
+
+def gen_second_service(r, spec):
+    """service `Archive` in the un-imported file: 0..2 LRO methods (names relative to ITS file's package) and a raw one"""
+    pkg = fpkg(spec, "unimp")
+    own = spec["files"]["unimp"]["msgs"]
+    other = spec["files"]["svc"]["msgs"]
+
+    def ref2():
+        k = r.pick(["own-rel", "own-abs", "other-rel", "other-abs", "empty", "nested"])
+        if k == "empty":
+            return {"case": "svc2-empty", "text": "google.protobuf.Empty", "target": "google.protobuf.Empty"}
+        if k == "nested":
+            full = f"{pkg}.Box.Lid"
+            return {"case": "svc2-abs-nested", "text": full, "target": full}
+        n = r.pick(own if k.startswith("own") else other)
+        full = f"{(pkg if k.startswith('own') else spkg(spec))}.{n}"
+        return {"case": "svc2-" + k, "text": n if k.endswith("rel") else full, "target": full}
+    ms = [{"name": f"{r.pick(['Archive', 'Restore', 'Purge'])}{k}", "kind": "lro", "response": ref2(), "metadata": ref2()}
+          for k in range(r.pick([0, 1, 2, 2]))]
+    share_types(r, ms)
+    ms.append({"name": "ArchiveRaw", "kind": "raw"})
+    r.shuffle(ms)
+    return {"methods": ms}
+
+
+def gen_yaml(r, pkg):
+    """service config: http rules for google.longrunning.Operations (REST operations client), other rules, optional mixin"""
+    ver = pkg.rsplit(".", 1)[1]
+    get = r.pick([
+        [["get", "/v9/{name=shelves/*/operations/*}", ""]],
+        [["get", f"/{ver}/{{name=**/operations/*}}", ""]],
+        [["get", "/v9/{name=operations/*}", ""], ["get", "/v8/{name=shelves/*/operations/*}", ""]],      # only the additional binding fits
+        [["get", "/v7/{name=shelves/*/operations/*}:poll", ""]],
+        None])
+    rules = []
+    if r.maybe(0.3):
+        rules.append({"selector": "google.cloud.location.Locations.GetLocation", "bindings": [["get", "/v1/{name=projects/*/locations/*}", ""]]})
+    if get and r.maybe(0.25):   # an earlier rule for the same selector: the later one wins
+        rules.append({"selector": "google.longrunning.Operations.GetOperation", "bindings": [["get", "/v0/{name=never/*}", ""]]})
+    if r.maybe(0.5):
+        rules.append({"selector": "google.longrunning.Operations.CancelOperation",
+                      "bindings": [["post", f"/{ver}/{{name=**/operations/*}}:cancel", "*"]]})
+        # (a CancelOperation rule WITHOUT `body` — common in real service configs — makes api-core's REST operations transport raise
+        #  KeyError: 'body' in future.cancel(); that is api-core's `_cancel_operation`, not the generator: not generated here)
+    if get:
+        rules.append({"selector": "google.longrunning.Operations.GetOperation", "bindings": get})
+    if r.maybe(0.2):
+        rules.append({"selector": "google.longrunning.Operations.DeleteOperation", "bindings": [["delete", f"/{ver}/{{name=**/operations/*}}", ""]]})
+    r_ = list(rules)
+    return {"rules": r_, "mixin": r.maybe(0.4)}
 
 
 def gen_spec_subpkg(r: apigen.Rng, idx: int, nlro=None):
@@ -160,13 +240,7 @@ def gen_spec_flat(r: apigen.Rng, idx: int, nlro=None):
     r.shuffle(methods)
     order = ["imp", "svc"]
     order.insert(r.randint(0, 2), "unimp")
-    # service config: an explicit http rule for Operations.GetOperation (used by the REST operations client),
-    # optionally with the Operations mixin declared
-    yaml_ = None
-    if r.maybe(0.35):
-        yaml_ = {"get_operation": r.pick(["/v9/{name=shelves/*/operations/*}", "/" + pkg.rsplit(".", 1)[1] + "/{name=**/operations/*}"]),
-                 "mixin": r.maybe(0.4)}
-    return {"pkg": pkg, "files": files, "svc_deps": svc_deps, "order": order, "methods": methods, "service_yaml": yaml_}
+    return {"pkg": pkg, "files": files, "svc_deps": svc_deps, "order": order, "methods": methods, "service_yaml": None}
 
 
 def build_files(spec):
@@ -211,7 +285,28 @@ def build_files(spec):
             from google.longrunning import operations_pb2
             mp = svc.method(m["name"], rq, OP_OUT, http=http, body="*")
             mp.options.Extensions[operations_pb2.operation_info].SetInParent()
+    if spec.get("svc2"):
+        g = out["unimp"]
+        for d in MIN_DEPS:
+            g.dep(d)
+        arq = g.msg("ArchiveRequest"); arq.field("name")
+        svc2 = g.service("Archive")
+        for m in spec["svc2"]["methods"]:
+            http = ("post", "/v1/{name=*}:" + m["name"][0].lower() + m["name"][1:])
+            if m["kind"] == "lro":
+                svc2.method(m["name"], arq, OP_OUT, lro=(m["response"]["text"], m["metadata"]["text"]), http=http, body="*")
+            else:
+                svc2.method(m["name"], arq, OP_OUT, http=http, body="*")
     return [out[role] for role in spec["order"]]
+
+
+def yaml_rules(spec):
+    y = spec.get("service_yaml")
+    if not y:
+        return []
+    if "rules" in y:
+        return y["rules"]
+    return [{"selector": "google.longrunning.Operations.GetOperation", "bindings": [["get", y["get_operation"], ""]]}]   # older replays
 
 
 def make_request(spec, files):
@@ -227,7 +322,19 @@ def make_request(spec, files):
             fh.write("type: google.api.Service\nconfig_version: 3\nname: lib.example.com\n")
             if y.get("mixin"):
                 fh.write("apis:\n- name: google.longrunning.Operations\n")
-            fh.write("http:\n  rules:\n  - selector: google.longrunning.Operations.GetOperation\n    get: '%s'\n" % y["get_operation"])
+            rules = yaml_rules(spec)
+            if rules:
+                fh.write("http:\n  rules:\n")
+            for rule in rules:
+                fh.write("  - selector: %s\n" % rule["selector"])
+                for k, (verb, uri, body) in enumerate(rule["bindings"]):
+                    ind = "    " if k == 0 else "      "
+                    if k == 1:
+                        fh.write("    additional_bindings:\n")
+                    lead = ind if k == 0 else "    - "
+                    fh.write("%s%s: '%s'\n" % (lead, verb, uri))
+                    if body:
+                        fh.write("%sbody: '%s'\n" % (ind, body))
         params += ",service-yaml=" + path
     return apigen.request(files, params), tmp
 
@@ -249,7 +356,19 @@ def model_files(req):
 
 # ------------------------------------------------------------------ histories
 
-def gen_history(r, ctx, resp_full, meta_full, others, ids):
+CMDS = ["metadata", "done", "running", "cancel", "result", "exception"]
+
+
+def gen_program(r):
+    cmds = [r.pick(CMDS) for _ in range(r.randint(0, 5))]
+    if r.maybe(0.75):
+        cmds.append("result")
+    if r.maybe(0.25):
+        cmds.append(r.pick(CMDS))          # something after the result: a settled future must stay silent
+    return cmds or ["result"]
+
+
+def gen_history(r, ctx, resp_full, meta_full, others, ids, allow_mismatch=True):
     """Operation states: the RPC's own reply, then GetOperation replies: not-done^k, done(response|error), extras"""
     def meta():
         return [meta_full, 0 if meta_full == "google.protobuf.Empty" else next(ids)] if r.maybe(0.8) else None
@@ -259,7 +378,7 @@ def gen_history(r, ctx, resp_full, meta_full, others, ids):
     ops = [{"done": False, "meta": meta(), "out": None} for _ in range(k + 1)]
     if term == "response":
         ty = resp_full
-        if others and not immediate and r.maybe(0.06):
+        if others and allow_mismatch and not immediate and r.maybe(0.06):
             ty = r.pick(others)                 # a server packing another type: outside the quantifier, T3 vs model only
         out = ["response", ty, 0 if ty == "google.protobuf.Empty" else next(ids)]
     elif term == "error":
@@ -432,6 +551,67 @@ def t2_direct(ctx, r, spec, api, svc, mfiles, svc_idx):
                          {"spec": spec, "selectors": [a, b], "output": out, "annotated": annotated})
 
 
+def t2_services(ctx, spec, api, svc, sv_res, mfiles, svc_idx):
+    """whole services vs `loadService`/`hasLro`: every method's lro pair and `Service.has_lro`, for EVERY service of the API"""
+    svc2 = api.services.get(f"{fpkg(spec, 'unimp')}.Archive") if spec.get("svc2") else None
+    for sv, methods, fname in ((svc, spec["methods"], mfiles[svc_idx]["name"]),) + (((svc2, spec["svc2"]["methods"], fpath(spec, "unimp")),) if svc2 else ()):
+        mo = sv_res.get(fname, {})
+        impl = [[wm.lro.response_type.ident.proto, wm.lro.metadata_type.ident.proto] if wm.lro else None
+                for wm in (sv.methods[m["name"]] for m in methods)]
+        ctx.traces += 1
+        ctx.count("service_has_lro", f"{sv.name}:{bool(sv.has_lro)}")
+        if mo.get("lro") != impl or mo.get("has_lro") != bool(sv.has_lro):
+            ctx.disagree("T2:c08.service", f"{sv.name}: model {mo} vs impl lro={impl} has_lro={sv.has_lro}", {"spec": spec})
+        # oracle (restates the statement, method by method): the pair is what THIS method's names denote
+        for m, got in zip(methods, impl):
+            if m["kind"] == "lro" and got != [m["response"]["target"], m["metadata"]["target"]]:
+                ctx.fail("lro-types", f"{sv.name}.{m['name']}: operation_info ({m['response']['text']}, {m['metadata']['text']}) loaded as {got}, names denote "
+                         f"{[m['response']['target'], m['metadata']['target']]} (other methods: {[(x.get('response', {}).get('text'), x.get('metadata', {}).get('text')) for x in methods if x is not m and 'response' in x]})", {"spec": spec})
+            if m["kind"] == "raw" and got is not None:
+                ctx.fail("raw-has-lro", f"{sv.name}.{m['name']}: no operation_info but lro={got}", {"spec": spec})
+    return svc2
+
+
+def t2_alias(ctx, r, spec, api, svc):
+    """`Address.module_alias` vs the model: the idents of api-core's operation modules as the service sees them, and
+    random addresses"""
+    from gapic.schema import metadata, naming as naming_mod
+    version = api.naming.version
+    ops, impls = [], []
+    for wm in svc.methods.values():
+        if not wm.lro:
+            continue
+        for asy in (False, True):
+            ident = (wm.client_output_async if asy else wm.client_output).ident
+            ops.append({"op": "c08.future_code", "async": asy, "version": version, "collisions": sorted(ident.collisions)})
+            impls.append((wm.name, asy, {"import_module": ident.module, "import_as": ident.module_alias or ident.module,
+                                         "callee": ident.module_alias or ident.module}, ident))
+    for (name, asy, impl, ident), mo in zip(impls, ask(ctx, ops)):
+        ctx.traces += 1
+        ctx.count("future_module_name", impl["callee"])
+        if mo != impl:
+            ctx.disagree("T2:c08.future_code", f"{name} async={asy}: model {mo} vs impl {impl} (collisions {sorted(ident.collisions)})", {"spec": spec})
+    pool = ["operation", "operation_async", "lib", "common", "google", "api_core", "v1", "big_query", "storage", "a_b_c"]
+    cases = []
+    for _ in range(ctx.n(12, 40)):
+        pkg = [r.pick(pool) for _ in range(r.randint(1, 4))]
+        module = r.pick(pool + ["type", "max", "operation"])
+        coll = sorted({r.pick(pool) for _ in range(r.randint(0, 3))})
+        ver = r.pick(["v1", "v2", "", pkg[-1]])
+        cases.append((pkg, module, coll, ver))
+    res = ask(ctx, [{"op": "c08.alias", "package": p, "module": m, "version": v, "collisions": c} for p, m, c, v in cases])
+    for (pkg, module, coll, ver), mo in zip(cases, res):
+        nm = types.SimpleNamespace(version=ver)
+        try:
+            impl = metadata.Address(package=tuple(pkg), module=module, collisions=frozenset(coll), api_naming=nm).module_alias
+        except IndexError:
+            impl = None
+        ctx.case(None, distinct_key=["alias", pkg, module, coll, ver])
+        ctx.traces += 1
+        if mo.get("alias") != impl:
+            ctx.disagree("T2:c08.module_alias", f"model {mo.get('alias')!r} vs impl {impl!r}", {"package": pkg, "module": module, "collisions": coll, "version": ver})
+
+
 def t2_resolve(ctx, r):
     from gapic.schema import metadata
     alphabet = "abcXYZ019_.é /"
@@ -486,7 +666,18 @@ def _run_spec(ctx, r, spec, label, files, req, transports):
         info = [m["response"]["text"], m["metadata"]["text"]] if "response" in m else (["", ""] if m["kind"] == "present-empty" else None)
         mops.append({"op": "c08.lro", "files": mfiles, "file": svc_idx, "output": out, "opinfo": info})
     mres = ask(ctx, mops)
-    model_err = next((mo for mo in mres if "error" in mo), None)
+    # the service-level model (`loadService`): services in request order of their files, methods in declaration order
+    sv_ops = [(mfiles[svc_idx]["name"], {"op": "c08.service", "files": mfiles, "file": svc_idx,
+                                         "methods": [{"output": o["output"], "opinfo": o["opinfo"]} for o in mops]})]
+    if spec.get("svc2"):
+        idx2 = [f["name"] for f in mfiles].index(fpath(spec, "unimp"))
+        sv_ops.append((mfiles[idx2]["name"], {"op": "c08.service", "files": mfiles, "file": idx2,
+                       "methods": [{"output": OP_OUT, "opinfo": [m["response"]["text"], m["metadata"]["text"]] if "response" in m else None}
+                                   for m in spec["svc2"]["methods"]]}))
+    sv_ops.sort(key=lambda t: [f["name"] for f in mfiles].index(t[0]))
+    sv_res = dict(zip([t[0] for t in sv_ops], ask(ctx, [t[1] for t in sv_ops])))
+    model_err = next((sv_res[t[0]] for t in sv_ops if "error" in sv_res[t[0]]), None)
+    ctx.count("sharing", spec.get("sharing", "n/a")); ctx.count("second_service", "yes" if spec.get("svc2") else "no")
     # ---- implementation: generation outcome
     res, err = genrun.try_generate(req)
     ctx.case({"pkg": spec["pkg"], "svc_pkg": spkg(spec), "order": spec["order"], "methods": [[m["name"], m["kind"], m.get("response", {}).get("text"), m.get("metadata", {}).get("text")] for m in spec["methods"]]},
@@ -536,6 +727,8 @@ def _run_spec(ctx, r, spec, label, files, req, transports):
         if m["kind"] == "raw" and impl != ["message", OP]:
             ctx.fail("client-output", f"{m['name']} async={asy}: client output {impl}, expected the raw Operation", {"spec": spec})
     t2_direct(ctx, r, spec, api, svc, mfiles, svc_idx)
+    svc2 = t2_services(ctx, spec, api, svc, sv_res, mfiles, svc_idx)
+    t2_alias(ctx, r, spec, api, svc)
     if any(fpkg(spec, role).endswith(".deeper") for role in ROLES):
         # two-level sub-packages: the emitted tree lacks `<sub>/deeper/types` on the unchanged generator (API.subpackages,
         # DESIGN §9-F7; a C01/C11 matter) — the library cannot be imported, so only generation + T2 are run for this layout
@@ -580,6 +773,9 @@ def _run_spec(ctx, r, spec, label, files, req, transports):
                 asy = tr == "grpc_asyncio"
                 sessions.append({"op": "grpc_session", "client": loc["async_client" if asy else "client"], "transport": loc[tr],
                                  "async": asy, "calls": calls, "trap_sleep": True})
+        nbasic = len(sessions)
+        progs, extra = plan_programs(ctx, r, spec, api, svc, svc2, loc, codec, local_types, ids, transports)
+        sessions = sessions + extra
         out = libhost.run(root, sessions, timeout=900)
         for attempt in range(8):     # a shared harness file being edited by another builder at this moment: infrastructure, retry
             if not any("child_error" in x and "/verif/harness/" in str(x["child_error"]) and "Error" in str(x["child_error"]) for x in out):
@@ -596,8 +792,197 @@ def _run_spec(ctx, r, spec, label, files, req, transports):
             stub_paths = {s[0] for c in sess["calls"] for s in c.get("stubs", [])}
             for (m, wm, ops, opname), res_, mo in zip(plans, sess["calls"], mrun):
                 check_call(ctx, spec, codec, tr, m, ops, opname, res_, mo, stub_paths)
+        rest_polls = []
+        if "rest" in transports and "calls" in out[list(transports).index("rest")]:
+            for (m, wm, ops, opname), res_ in zip(plans, out[list(transports).index("rest")]["calls"]):
+                if m["kind"] == "lro":
+                    rest_polls.append((opname, [rec["path"] for rec in res_.get("server", []) if rec["verb"] == "GET"]))
+        check_programs(ctx, spec, codec, svc, sv_res, mfiles, svc_idx, progs, out[nbasic:], rest_polls)
     finally:
         genrun.cleanup(root)
+
+
+def plan_programs(ctx, r, spec, api, svc, svc2, loc, codec, local_types, ids, transports):
+    """program sessions (libhost_c08): futures used as objects, two futures interleaved on one client, the same request
+    dict literal for both; plus the REST operations client's http table and the presence of `operations_client`"""
+    import gapic.utils as gu
+    from google.protobuf import json_format
+    progs, extra = [], []
+    services = [("Library", svc, spec["methods"], loc, list(transports))]
+    if svc2 is not None:
+        services.append(("Archive", svc2, spec["svc2"]["methods"], rpc.py_locations(api, svc2), ["grpc"]))
+    for label, sv, methods, lc, kinds in services:
+        calls = []
+        for m in methods:
+            if m["kind"] != "lro":
+                continue
+            for _ in range(ctx.n(1, 2)):
+                rt, mt = m["response"]["target"], m["metadata"]["target"]
+                ops = gen_history(r, ctx, rt, mt, [], ids, allow_mismatch=False)
+                calls.append({"m": m, "wm": sv.methods[m["name"]], "ops": ops, "opname": f"shelves/s{next(ids)}/operations/p{next(ids)}", "cmds": gen_program(r)})
+        r.shuffle(calls)
+        groups, k = [], 0
+        while k < len(calls):
+            n = r.pick([1, 2, 2])
+            groups.append(calls[k:k + n]); k += n
+        for kind in kinds:
+            if not groups:
+                continue
+            enc_groups = []
+            for g in groups:
+                eg = []
+                for c in g:
+                    msgs = [op_message(codec, c["opname"], st) for st in c["ops"]]
+                    if kind == "rest":
+                        enc = [json_format.MessageToJson(x, descriptor_pool=codec.pool) for x in msgs]
+                        path = ":" + c["m"]["name"][0].lower() + c["m"]["name"][1:]
+                    else:
+                        enc = [base64.b64encode(x.SerializeToString()).decode() for x in msgs]
+                        path = f"/{sv.meta.address.proto}/{c['m']['name']}"
+                    eg.append({"method": gu.to_snake_case(c["wm"].client_method_name), "rpc_path": path, "request": {"name": "x"},
+                               "opname": c["opname"], "first": enc[0], "replies": enc[1:], "cmds": c["cmds"]})
+                enc_groups.append(eg)
+            asy = kind == "grpc_asyncio"
+            extra.append({"op": "c08_program_session", "kind": kind, "client": lc["async_client" if asy else "client"],
+                          "transport": lc[kind], "groups": enc_groups})
+            progs.append(("program", label, kind, groups))
+        mod, _, attr = lc["grpc"].partition(":")
+        extra.append({"op": "dir", "module": mod, "attr": attr})
+        progs.append(("dir", label, sv, None))
+        if "rest" in kinds:
+            extra.append({"op": "c08_ops_table", "transport": lc["rest"]})
+            progs.append(("ops_table", label, sv, None))
+    return progs, extra
+
+
+def canon_prog_obs(codec, ob):
+    """impl observation -> the model's vocabulary"""
+    tag, v = ob[0], ob[1]
+    if tag == "bool":
+        return ["bool", v] if isinstance(v, bool) else ["bool", canon_exc(v)]
+    if v is None:
+        return [tag, None]
+    if isinstance(v, dict) and "raised" in v:
+        return [tag, canon_exc(v)]
+    if v.get("kind") == "none":
+        return [tag, None]
+    if v.get("kind") == "message":
+        return [tag, ["ok", v["type"], payload_id(v["type"], codec.decode(v["type"], v["b64"]))]]
+    return [tag, ["other", json.dumps(v)[:100]]]
+
+
+def canon_exc(v):
+    if v.get("raised") == "TypeError":
+        return ["type_error"]
+    if v.get("raised") in ("TimeoutError", "RetryError"):
+        return ["timeout"]
+    if v.get("api_error"):
+        if "Unexpected state" in v.get("msg", ""):
+            return ["unexpected_state"]
+        codes = v.get("status_codes") or []
+        return ["api_error", codes[0] if codes else None]
+    return ["raised", v.get("raised"), v.get("msg", "")[:80]]
+
+
+def check_programs(ctx, spec, codec, svc, sv_res, mfiles, svc_idx, progs, outs, rest_polls):
+    import grpc
+    for (what, label, a, groups), out in zip(progs, outs):
+        payload = {"spec": spec, "service": label}
+        if what == "dir":
+            ctx.traces += 1
+            fname = mfiles[svc_idx]["name"] if label == "Library" else fpath(spec, "unimp")
+            has = "operations_client" in (out.get("names") or [])
+            ctx.count("operations_client_property", f"{label}:{has}")
+            if has != bool(sv_res.get(fname, {}).get("has_lro")):
+                ctx.disagree("T3:c08.operations_client-presence", f"{label}: transport has operations_client={has}, model has_lro={sv_res.get(fname, {}).get('has_lro')} ({str(out)[:200]})", payload)
+            continue
+        if what == "ops_table":
+            ctx.traces += 1
+            if out.get("no_ops_client"):
+                continue
+            if "table" not in out:
+                ctx.fail("rest-operations-client", f"{label}: REST operations client could not be built: {str(out)[-400:]}", payload)
+                continue
+            names = [n for n, _ in rest_polls]
+            mo = ask(ctx, [{"op": "c08.ops_table", "rules": yaml_rules(spec), "prefix": a.client_package_version, "names": names}])[0]
+            impl = [[k, [[row.get("method"), row.get("uri"), row.get("body")] for row in v]] for k, v in out["table"].items()]
+            ctx.count("rest_ops_table_rows", sum(len(v) for _, v in impl))
+            if mo.get("table") != impl:
+                ctx.disagree("T3:c08.rest-ops-table", f"model {mo.get('table')} vs impl {impl}", payload)
+            if out.get("path_prefix") != a.client_package_version or not out.get("same_client_twice"):
+                ctx.disagree("T3:c08.rest-ops-table", f"path_prefix {out.get('path_prefix')} (version {a.client_package_version}), cached={out.get('same_client_twice')}", payload)
+            for (opname, gets), mp in zip(rest_polls, mo.get("paths", [])):
+                for g in gets:
+                    ctx.traces += 1
+                    ctx.count("rest_poll_url", g[:g.index(opname)] + "<name>" + g[g.index(opname) + len(opname):] if opname in g else g)
+                    if mp is None or mp[1] != g:
+                        ctx.disagree("T3:c08.rest-poll-url", f"operation {opname}: polled {g}, model {mp} (rules {yaml_rules(spec)})", payload)
+            continue
+        kind = a
+        if "groups" not in out or "session_error" in out:
+            ctx.fail("session-failed:program:" + kind, f"program session failed ({label}, {kind}): {str(out)[-700:]}", payload)
+            continue
+        if out.get("unknown"):
+            ctx.fail("stray-rpc", f"{label} {kind}: RPCs the scripted server did not expect (unknown operation name, exhausted history, unscripted path): {out['unknown'][:4]}", payload)
+        flat = [(c, res_) for g, rg in zip(groups, out["groups"]) for c, res_ in zip(g, rg)]
+        mos = ask(ctx, [{"op": "c08.exec", "rt": c["m"]["response"]["target"], "mt": c["m"]["metadata"]["target"], "ops": c["ops"], "cmds": c["cmds"]} for c, _ in flat])
+        for (c, res_), mo in zip(flat, mos):
+            m, ops, cmds, opname = c["m"], c["ops"], c["cmds"], c["opname"]
+            pl = dict(payload, method=m["name"], history=ops, cmds=cmds, transport=kind)
+            shape = [[st["done"], bool(st["meta"]), st["out"][0] if st["out"] else None] for st in ops]
+            ctx.case({"program": cmds, "transport": kind, "service": label, "history": shape},
+                     distinct_key=["prog", kind, label, json.dumps(cmds), json.dumps(shape), m["response"]["case"], m["metadata"]["case"]])
+            ctx.count("program_transport", kind); ctx.count("program_length", len(cmds))
+            if res_ is None or "start_raised" in res_:
+                ctx.fail("call-raised", f"{kind} {label}.{m['name']}: {res_ and res_['start_raised']}", pl)
+                continue
+            rt, mt = m["response"]["target"], m["metadata"]["target"]
+            want_future = "AsyncOperation" if kind == "grpc_asyncio" else "Operation"
+            if res_.get("future") != want_future:
+                ctx.fail("future-type", f"{kind} {label}.{m['name']}: returned {res_.get('future')} instead of an operation future", pl)
+                continue
+            if res_.get("request_mutated"):
+                ctx.fail("request-mutated", f"{kind} {label}.{m['name']}: the caller's request dict was modified", pl)
+            got = [canon_prog_obs(codec, ob) for ob in res_["obs"]]
+            polls = res_["polls_after"][-1] if res_["polls_after"] else 0
+            # ---- oracle: whatever was observed before, the outcome is the history's, typed by the annotation
+            final = next((st for st in ops if st["done"]), ops[-1]) if not ops[0]["done"] else ops[0]
+            term = final["out"][0] if final["out"] else "neither"
+            for cmd, ob in zip(cmds, got):
+                if cmd == "result" and term == "response" and ob != ["result", ["ok", rt, final["out"][2]]]:
+                    ctx.fail("result-type" if not (isinstance(ob[1], list) and ob[1][:2] == ["ok", rt]) else "result-content",
+                             f"{kind} {label}.{m['name']}: result() gave {ob[1]} after {cmds}, annotated response type {rt}, server packed id {final['out'][2]}", pl)
+                if cmd in ("result", "exception") and term == "error" and ob[1] != ["api_error", final["out"][1]]:
+                    ctx.fail("error-not-raised", f"{kind} {label}.{m['name']}: operation failed with status code {final['out'][1]}; {cmd}() gave {ob[1]}", pl)
+                if cmd == "exception" and term == "response" and ob[1] is not None:
+                    ctx.fail("error-not-raised", f"{kind} {label}.{m['name']}: exception() of a successful operation gave {ob[1]}", pl)
+                if cmd == "metadata" and isinstance(ob[1], list) and ob[1][0] == "ok" and ob[1][1] != mt:
+                    ctx.fail("metadata-type", f"{kind} {label}.{m['name']}: metadata of type {ob[1][1]}, annotated {mt}", pl)
+                if cmd == "metadata" and isinstance(ob[1], list) and ob[1][0] != "ok":
+                    ctx.fail("metadata-type", f"{kind} {label}.{m['name']}: metadata gave {ob[1]}, annotated metadata type {mt}", pl)
+            need = expected_polls(ops)
+            if polls > need or (polls != need and any(x in ("result", "exception") for x in cmds)):
+                ctx.fail("poll-count", f"{kind} {label}.{m['name']}: {polls} GetOperation calls for operation {opname} after {cmds}, history needs {need}", pl)
+            if len(res_.get("cancel_names", [])) > cmds.count("cancel"):
+                ctx.fail("stray-rpc", f"{kind} {label}.{m['name']}: {len(res_['cancel_names'])} CancelOperation calls for {cmds.count('cancel')} cancel()", pl)
+            # ---- correspondence with the model (`exec`)
+            ctx.traces += 1
+            mobs = [[o[0], o[1]] for o in mo.get("obs", [])]
+            if mobs != got:
+                ctx.disagree("T3:c08.program", f"{kind} {label}.{m['name']} {cmds}: model {mobs} vs impl {got}", pl)
+            if mo.get("polls") != polls or mo.get("cancels") != len(res_.get("cancel_names", [])):
+                ctx.disagree("T3:c08.program-rpcs", f"{kind} {label}.{m['name']} {cmds}: model polls={mo.get('polls')} cancels={mo.get('cancels')} vs impl polls={polls} cancels={len(res_.get('cancel_names', []))}", pl)
+            # the class api-core picks for the error (sync: by status code; asyncio: GoogleAPICallError)
+            for cmd, raw in zip(cmds, res_["obs"]):
+                v = raw[1]
+                if cmd in ("result", "exception") and term == "error" and isinstance(v, dict) and v.get("api_error"):
+                    code = final["out"][1]
+                    want = next(c_.name for c_ in grpc.StatusCode if c_.value[0] == code) if kind != "grpc_asyncio" else None
+                    ctx.count("error_class", f"{kind}:{v.get('raised')}")
+                    if kind != "grpc_asyncio" and v.get("grpc_code") != want:
+                        ctx.disagree("T3:c08.error-class", f"{kind} {label}.{m['name']}: status {code} raised {v.get('raised')} grpc_code={v.get('grpc_code')}, expected {want}", pl)
+                    if not v.get("has_operation"):
+                        ctx.disagree("T3:c08.error-class", f"{kind} {label}.{m['name']}: the exception does not carry the failed Operation as `response`", pl)
 
 
 def decode_obs(codec, c):
@@ -671,7 +1056,7 @@ def check_call(ctx, spec, codec, tr, m, ops, opname, res_, mo, stub_paths):
         ctx.fail("poll-count", f"{tr} {m['name']}: {len(names)} GetOperation calls, history needs {expected_polls(ops)}", payload)
     # REST: the URL prefix comes from the Operations http rule in force (api-core default or service config); the
     # statement only says that the operation is polled, so only the operation's name is demanded
-    if any((n is None or not n.endswith("/" + opname)) if tr == "rest" else n != opname for n in names):
+    if any((n is None or not (n.endswith("/" + opname) or ("/" + opname + ":") in n)) if tr == "rest" else n != opname for n in names):
         ctx.fail("poll-target", f"{tr} {m['name']}: polled {names}, operation is {opname}", payload)
     if tr != "rest" and names and GETOP not in stub_paths:
         ctx.fail("poll-channel", f"{tr} {m['name']}: GetOperation reached the server but no GetOperation stub was created on the transport's channel", payload)
@@ -796,9 +1181,12 @@ def run_excluded(ctx, r):
     ctx.assume("every response/metadata type named by operation_info exists in the request's file set (otherwise the generator raises KeyError, not the advertised TypeError)")
     ctx.assume("fully-qualified names are written without a leading dot, as in operations.proto's own example `google.protobuf.Struct` (`.pkg.Msg` raises KeyError)")
     ctx.assume("a name is either a single identifier relative to the method's package or fully qualified; a partially-qualified name such as `v1.Book` is taken as absolute and raises KeyError")
+    ctx.assume("REST: the URL prefix of the default GetOperation binding is `service.client_package_version` = the LAST package segment (`/sub/<name>` for a "
+               "service in a sub-package `<pkg>.sub`); the statement does not fix the URL, so only the operation name inside the polled URL is demanded and the "
+               "prefix is compared with the model, which takes it from the same attribute")
     ctx.assume("polling (sleep schedule, deadline, retry of GetOperation) is api-core's; the model is 'the first done operation decides' and time is trapped in T3")
     for label, text in (("unknown", "Nope"), ("unknown-abs", f"{pkg}.Nope"), ("leading-dot", f".{pkg}.Book"), ("partial", "v1.Book"),
-                        ("other-package-relative", "Duration")):
+                        ("other-package-relative", "Duration"), ("whitespace-name", " "), ("trailing-space", "Book "), ("leading-space", " Book")):
         run_outcome(ctx, small_spec(pkg, [{"name": "Move", "kind": "excluded", "response": ref(text, None, label), "metadata": meta}]), "probe", label)
 
 
